@@ -261,7 +261,7 @@ fn run_all(scenarios: &[Value], out: &mut Out) -> Stats {
     let mut st = Stats::default();
     for (i, sc) in scenarios.iter().enumerate() {
         st.scenarios += 1;
-        match sc["op"].as_str().unwrap_or("") {
+        let r = catch(|| match sc["op"].as_str().unwrap_or("") {
             "fri" => by_field!(run_fri, sc, i, (i, sc, &mut st, out)),
             "drp" => by_field!(drp_any, sc, i, (i, sc, &mut st, out)),
             "pos" => run_pos(i, sc, &mut st, out),
@@ -269,6 +269,12 @@ fn run_all(scenarios: &[Value], out: &mut Out) -> Stats {
                 eprintln!("unknown op {other}");
                 std::process::exit(2)
             },
+        });
+        // a panic of the engine itself (the code under test runs inside its own `catch`es) is
+        // reported against the scenario instead of killing the run
+        if let Err(p) = r {
+            st.mismatches += 1;
+            out.emit(&mismatch(i, "engine", json!({"what": "engine panicked", "panic": p})));
         }
     }
     st
